@@ -247,9 +247,71 @@ func runC05(r *Run) {
 				}
 			}
 		}
+		// a field handed twice — the stored and the new value — to a two-argument predicate (an equality helper)
+		for _, c := range callsIn(cmp, false) {
+			if len(c.Common.Args) != 2 || c.Value() == nil {
+				continue
+			}
+			if b, ok := c.Value().Type().Underlying().(*types.Basic); !ok || b.Kind() != types.Bool {
+				continue
+			}
+			fx, fy := fieldOfValue(stripValue(c.Common.Args[0])), fieldOfValue(stripValue(c.Common.Args[1]))
+			if fx != nil && fy != nil && fx == fy && fieldOwner(fx) == "SendFile" {
+				compared["SendFile."+fx.Name()] = true
+			}
+		}
 		for _, n := range sortedKeys(used) {
 			r.check(wholeStruct || compared[n], "compareConfig:"+n, used[n], "compared by compareConfig", n+" shapes a cached SendFile entry (read at "+used[n]+" while the entry is built) but compareConfig does not compare it: two SendFile call sites that differ only in this option share whichever entry was created first, so the response depends on which route was requested earlier")
 		}
+	})
+
+	r.rule("R7", "a fasthttp.RequestCtx taken from a pool is wiped before request code sees it: on every path from the pool's Get to the first hand-over (AcquireCtx, a handler call) the request, the response and the user values (c.Locals) are reset (E1, every function of the module)", func() {
+		n := 0
+		r.P.AllFuncs("*", func(f *ssa.Function) {
+			for _, gc := range callsMatching(f, false, nameIs("(*sync.Pool).Get")) {
+				var fctx ssa.Value
+				if gc.Value() == nil {
+					continue
+				}
+				for _, ref := range *gc.Value().Referrers() {
+					if ta, ok := ref.(*ssa.TypeAssert); ok && strings.HasSuffix(ta.AssertedType.String(), "fasthttp.RequestCtx") {
+						fctx = ta
+					}
+				}
+				if fctx == nil {
+					continue
+				}
+				n++
+				isUse := func(in ssa.Instruction) bool {
+					ci, ok := in.(ssa.CallInstruction)
+					if !ok {
+						return false
+					}
+					if _, isDefer := in.(*ssa.Defer); isDefer {
+						return false
+					}
+					nm := calleeName(ci.Common())
+					if strings.Contains(nm, "valyala/fasthttp") || nm == "(*sync.Pool).Put" {
+						return false
+					}
+					for _, a := range ci.Common().Args {
+						if stripValue(a) == fctx {
+							return true
+						}
+					}
+					return false
+				}
+				for _, w := range []struct{ what, suffix, field string }{
+					{"the request", "fasthttp.Request).Reset", "Request"}, {"the response", "fasthttp.Response).Reset", "Response"}, {"the user values (c.Locals)", "fasthttp.RequestCtx).ResetUserValues", ""},
+				} {
+					isWipe := func(in ssa.Instruction) bool { return isCallTo(in, nameHasSuffix(w.suffix)) }
+					_, hit := reach(pointAfter(gc.Instr), isUse, nil, isWipe)
+					r.check(hit == nil, fmt.Sprintf("%s:pooled-RequestCtx#%d:resets-%s", short(f.String()), n, strings.Fields(w.what)[1]), r.pos(gc.Instr), w.what+" is reset before the context is handed on",
+						"a pooled fasthttp.RequestCtx reaches request code without "+w.what+" being reset: what the previous request left there (for the user values: everything it put into c.Locals) is visible to the next request served with the same object")
+				}
+			}
+		})
+		r.atLeast("pools of fasthttp.RequestCtx", n, 1)
 	})
 }
 
